@@ -17,21 +17,25 @@
      atomic : a failing statement's operations are discarded
      ryw    : the view is committed ⊕ buffer (read your writes)
    code, auto-commit      : view = committed, buffer dropped on error      (M_autocommit)
-   code, explicit C API   : ryw = false, atomic = false                    (M_txn)
+   code, explicit C API   : ryw = false (view_of: committed snapshot, plus the nodes staged by
+                            earlier statements for the unlabelled scan), atomic = false    (M_txn)
    spec                   : ryw = true,  atomic = true                     (S_txn)            *)
 From Coq Require Import List ZArith NArith Bool.
 Import ListNotations.
 Open Scope Z_scope.
 
-Record node := mkNode { nid : N; nkey : Z; nprops : list (N * Z) }.
+(* labels: 0 = :L (every node of the initial databases), 1, 2 = :F1, :F2 (never in an initial database) *)
+Record node := mkNode { nid : N; nkey : Z; nlabels : list N; nprops : list (N * Z) }.
 Record graph := mkGraph { gnext : N; gnodes : list node; gedges : list (N * N) }.
 
 Inductive wop :=
-| WCreate (id : N) (k : Z)
+| WCreate (id : N) (k : Z) (labs : list N)
 | WSetProp (id : N) (p : N) (v : Z)
 | WDelNode (id : N)
 | WCreateEdge (a b : N)
-| WDelEdge (a b : N).
+| WDelEdge (a b : N)
+| WAddLabel (id : N) (lab : N)
+| WDelLabel (id : N) (lab : N).
 
 Fixpoint set_assoc (p : N) (v : Z) (l : list (N * Z)) : list (N * Z) :=
   match l with
@@ -41,18 +45,33 @@ Fixpoint set_assoc (p : N) (v : Z) (l : list (N * Z)) : list (N * Z) :=
                    else (q, w) :: set_assoc p v t
   end.
 
+Fixpoint add_label (l : N) (ls : list N) : list N :=
+  match ls with
+  | [] => [l]
+  | m :: t => if N.eqb l m then ls else if N.ltb l m then l :: ls else m :: add_label l t
+  end.
+Definition del_label (l : N) (ls : list N) : list N := filter (fun m => negb (N.eqb m l)) ls.
+
 Definition edge_eqb (e f : N * N) : bool := N.eqb (fst e) (fst f) && N.eqb (snd e) (snd f).
 
 Definition apply_op (g : graph) (o : wop) : graph :=
   match o with
-  | WCreate id k => mkGraph (N.max (gnext g) (N.succ id)) (gnodes g ++ [mkNode id k []]) (gedges g)
+  | WCreate id k labs => mkGraph (N.max (gnext g) (N.succ id)) (gnodes g ++ [mkNode id k labs []]) (gedges g)
   | WSetProp id p v =>
       mkGraph (gnext g)
-        (map (fun n => if N.eqb (nid n) id then mkNode (nid n) (nkey n) (set_assoc p v (nprops n)) else n) (gnodes g))
+        (map (fun n => if N.eqb (nid n) id then mkNode (nid n) (nkey n) (nlabels n) (set_assoc p v (nprops n)) else n) (gnodes g))
         (gedges g)
   | WDelNode id => mkGraph (gnext g) (filter (fun n => negb (N.eqb (nid n) id)) (gnodes g)) (gedges g)
   | WCreateEdge a b => mkGraph (gnext g) (gnodes g) (gedges g ++ [(a, b)])
   | WDelEdge a b => mkGraph (gnext g) (gnodes g) (filter (fun e => negb (edge_eqb e (a, b))) (gedges g))
+  | WAddLabel id lab =>
+      mkGraph (gnext g)
+        (map (fun n => if N.eqb (nid n) id then mkNode (nid n) (nkey n) (add_label lab (nlabels n)) (nprops n) else n) (gnodes g))
+        (gedges g)
+  | WDelLabel id lab =>
+      mkGraph (gnext g)
+        (map (fun n => if N.eqb (nid n) id then mkNode (nid n) (nkey n) (del_label lab (nlabels n)) (nprops n) else n) (gnodes g))
+        (gedges g)
   end.
 
 Definition apply_ops (g : graph) (ops : list wop) : graph := fold_left apply_op ops g.
@@ -73,20 +92,36 @@ Inductive stmt :=
 | SDelete (detach : bool) (k : Z)          (* MATCH (n:L) WHERE n.k = k [DETACH] DELETE n *)
 | SLink (k1 k2 : Z)                        (* MATCH (a:L), (b:L) WHERE a.k = k1 AND b.k = k2 CREATE (a)-[:R]->(b) *)
 | SMerge (k : Z)                           (* MERGE (n:L {k: k}) *)
-| SSyntax.                                 (* a statement the parser rejects *)
+| SSyntax                                  (* a statement the parser rejects *)
+| SCreateNL (rows : list (Z * cell))       (* UNWIND rows AS r CREATE ({k: r[0], v: <expr r>}) : nodes without any label *)
+(* statements driven by the unlabelled scan MATCH (n): every node the statement can see *)
+| SScanSet (p : N) (z : Z)                 (* MATCH (n) SET n.<p> = z *)
+| SScanLabel (add : bool) (lab : N)        (* MATCH (n) SET n:<lab>  /  MATCH (n) REMOVE n:<lab> *)
+                                           (* domain: a label is removed only after the database interned it (the code skips
+                                              REMOVE of a label name it has never seen: no buffered removal); the generator
+                                              removes :L only from non-empty initial databases and :F1/:F2 only after a SET *)
+| SScanLoop                                (* MATCH (n) CREATE (n)-[:R]->(n) *)
+| SScanDelete (detach : bool)              (* MATCH (n) [DETACH] DELETE n *)
+(* a labelled scan reading labels *)
+| SLabelSet (lab : N) (p : N) (z : Z)      (* MATCH (n:<lab>) SET n.<p> = z *)
+(* multi-target deletes: all targets are collected and checked before anything is tombstoned *)
+| SDeleteIn (detach : bool) (ks : list Z)  (* MATCH (n:L) WHERE n.k IN ks [DETACH] DELETE n   (ks distinct) *)
+| SDeleteRel (k : Z).                      (* MATCH ()-[r]->(a:L) WHERE a.k = k DELETE r, a : refused when a has a relationship not named by r *)
 
-Definition with_key (k : Z) (g : graph) : list node := filter (fun n => Z.eqb (nkey n) k) (gnodes g).
+(* MATCH (n:L) WHERE n.k = k / MERGE (n:L {k: k}): the nodes carrying :L whose key is k *)
+Definition has_label (l : N) (n : node) : bool := existsb (N.eqb l) (nlabels n).
+Definition with_key (k : Z) (g : graph) : list node := filter (fun n => Z.eqb (nkey n) k && has_label 0%N n) (gnodes g).
 Definition attached (g : graph) (id : N) : list (N * N) :=
   filter (fun e => N.eqb (fst e) id || N.eqb (snd e) id) (gedges g).
 
 (* CREATE rows: the node and its key are written, then the value expression is evaluated *)
-Fixpoint eval_create (next : N) (rows : list (Z * cell)) : list wop * bool :=
+Fixpoint eval_create (labs : list N) (next : N) (rows : list (Z * cell)) : list wop * bool :=
   match rows with
   | [] => ([], true)
-  | (k, CBad) :: _ => ([WCreate next k], false)
+  | (k, CBad) :: _ => ([WCreate next k labs], false)
   | (k, CInt v) :: t =>
-      let '(ops, ok) := eval_create (N.succ next) t in
-      (WCreate next k :: WSetProp next 0%N v :: ops, ok)
+      let '(ops, ok) := eval_create labs (N.succ next) t in
+      (WCreate next k labs :: WSetProp next 0%N v :: ops, ok)
   end.
 
 (* SET rows (already joined with the matching nodes of the view): one write per row *)
@@ -100,24 +135,46 @@ Fixpoint eval_set (p : N) (rows : list (N * cell)) : list wop * bool :=
 Definition dedup_edges (l : list (N * N)) : list (N * N) :=
   fold_left (fun acc e => if existsb (edge_eqb e) acc then acc else acc ++ [e]) l [].
 
+(* DELETE of the target nodes: all targets are collected, the safety check runs against the view's
+   relationships, then relationships (DETACH) and nodes are tombstoned *)
+Definition eval_delete (view : graph) (detach : bool) (targets : list N) : list wop * bool :=
+  let att := dedup_edges (flat_map (attached view) targets) in
+  if detach then (map (fun e => WDelEdge (fst e) (snd e)) att ++ map WDelNode targets, true)
+  else if negb (match att with [] => true | _ => false end) then ([], false)
+  else (map WDelNode targets, true).
+
+(* DELETE r, a over the rows of MATCH ()-[r]->(a): `att id` = relationships attached to id in the view *)
+Definition eval_delete_rel (att : N -> list (N * N)) (cands : list N) : list wop * bool :=
+  let incoming := fun id => filter (fun e => N.eqb (snd e) id) (att id) in
+  let targets := filter (fun id => negb (match incoming id with [] => true | _ => false end)) cands in
+  let explicit := dedup_edges (flat_map incoming targets) in
+  let all := dedup_edges (flat_map att targets) in
+  if forallb (fun e => existsb (edge_eqb e) explicit) all
+  then (map (fun e => WDelEdge (fst e) (snd e)) explicit ++ map WDelNode targets, true)
+  else ([], false).
+
 (* evaluation of one statement against `view`, fresh ids from `next`:
    (operations emitted — up to the failure if any —, succeeded?) *)
 Definition eval (view : graph) (next : N) (s : stmt) : list wop * bool :=
   match s with
-  | SCreate rows => eval_create next rows
+  | SCreate rows => eval_create [0%N] next rows
+  | SCreateNL rows => eval_create [] next rows
   | SSet p rows =>
       eval_set p (flat_map (fun r => map (fun n => (nid n, snd r)) (with_key (fst r) view)) rows)
-  | SDelete detach k =>
-      let targets := map nid (with_key k view) in
-      let att := dedup_edges (flat_map (attached view) targets) in
-      if detach then (map (fun e => WDelEdge (fst e) (snd e)) att ++ map WDelNode targets, true)
-      else if negb (match att with [] => true | _ => false end) then ([], false)
-      else (map WDelNode targets, true)
+  | SDelete detach k => eval_delete view detach (map nid (with_key k view))
+  | SScanDelete detach => eval_delete view detach (map nid (gnodes view))
+  | SDeleteIn detach ks => eval_delete view detach (map nid (flat_map (fun k => with_key k view) ks))
+  | SDeleteRel k => eval_delete_rel (attached view) (map nid (with_key k view))
+  | SScanSet p z => (map (fun n => WSetProp (nid n) p z) (gnodes view), true)
+  | SScanLabel add lab => (map (fun n => if add then WAddLabel (nid n) lab else WDelLabel (nid n) lab) (gnodes view), true)
+  | SScanLoop => (map (fun n => WCreateEdge (nid n) (nid n)) (gnodes view), true)
+  | SLabelSet lab p z =>
+      (map (fun n => WSetProp (nid n) p z) (filter (has_label lab) (gnodes view)), true)
   | SLink k1 k2 =>
       (flat_map (fun a => map (fun b => WCreateEdge (nid a) (nid b)) (with_key k2 view)) (with_key k1 view), true)
   | SMerge k =>
       match with_key k view with
-      | [] => ([WCreate next k], true)
+      | [] => ([WCreate next k [0%N]], true)
       | _ => ([], true)
       end
   | SSyntax => ([], false)
@@ -125,10 +182,24 @@ Definition eval (view : graph) (next : N) (s : stmt) : list wop * bool :=
 
 Definition next_of (db : graph) (buf : list wop) : N := gnext (apply_ops db buf).
 
+(* what a statement of an explicit transaction reads in the code:
+   - the committed snapshot (execute_write_in_txn: db.snapshot()), except that
+   - the unlabelled node scan MATCH (n) also returns the nodes created so far in the transaction
+     (write_orchestration.rs execute_node_scan_with_staged_creates over
+     WriteTxn::staged_created_nodes_with_labels: every created node, with or without labels,
+     tombstoned or not); deletions, relationships and properties in the buffer are not seen *)
+Definition is_scan (s : stmt) : bool :=
+  match s with SScanSet _ _ | SScanLabel _ _ | SScanLoop | SScanDelete _ => true | _ => false end.
+Definition staged (buf : list wop) : list node :=
+  flat_map (fun o => match o with WCreate id k labs => [mkNode id k labs []] | _ => [] end) buf.
+Definition scan_view (db : graph) (buf : list wop) : graph :=
+  mkGraph (gnext db) (gnodes db ++ staged buf) (gedges db).
+Definition view_of (ryw : bool) (db : graph) (buf : list wop) (s : stmt) : graph :=
+  if ryw then apply_ops db buf else if is_scan s then scan_view db buf else db.
+
 (* one statement of an explicit transaction; the state is the transaction's write buffer *)
 Definition step (ryw atomic : bool) (db : graph) (buf : list wop) (s : stmt) : list wop :=
-  let view := if ryw then apply_ops db buf else db in
-  let '(ops, ok) := eval view (next_of db buf) s in
+  let '(ops, ok) := eval (view_of ryw db buf s) (next_of db buf) s in
   if ok || negb atomic then buf ++ ops else buf.
 
 Definition run (ryw atomic : bool) (db : graph) (ss : list stmt) : list wop :=
@@ -136,8 +207,14 @@ Definition run (ryw atomic : bool) (db : graph) (ss : list stmt) : list wop :=
 Definition txn (ryw atomic : bool) (db : graph) (ss : list stmt) : graph :=
   apply_ops db (run ryw atomic db ss).
 
+(* commit of the code's transaction: label additions and removals are kept in two lists
+   (engine.rs pending_label_additions / pending_label_removals) and all additions are applied before all
+   removals, so SET n:X after REMOVE n:X in one transaction is lost (K-C24-label-order) *)
+Definition is_del_label (o : wop) : bool := match o with WDelLabel _ _ => true | _ => false end.
+Definition commit_order (buf : list wop) : list wop :=
+  filter (fun o => negb (is_del_label o)) buf ++ filter is_del_label buf.
 (* what the code does *)
-Definition M_txn := txn false false.
+Definition M_txn (db : graph) (ss : list stmt) : graph := apply_ops db (commit_order (run false false db ss)).
 Definition M_autocommit (db : graph) (s : stmt) : graph :=
   let '(ops, ok) := eval db (gnext db) s in if ok then apply_ops db ops else db.
 (* the spec *)
@@ -148,8 +225,7 @@ Fixpoint statuses (ryw atomic : bool) (db : graph) (buf : list wop) (ss : list s
   match ss with
   | [] => []
   | s :: t =>
-      let view := if ryw then apply_ops db buf else db in
-      snd (eval view (next_of db buf) s) :: statuses ryw atomic db (step ryw atomic db buf s) t
+      snd (eval (view_of ryw db buf s) (next_of db buf) s) :: statuses ryw atomic db (step ryw atomic db buf s) t
   end.
 Fixpoint auto_statuses (db : graph) (ss : list stmt) : list bool :=
   match ss with
@@ -167,15 +243,14 @@ Fixpoint some_dirty (ryw atomic : bool) (db : graph) (buf : list wop) (ss : list
   match ss with
   | [] => false
   | s :: t =>
-      let view := if ryw then apply_ops db buf else db in
-      fails_dirty view (next_of db buf) s || some_dirty ryw atomic db (step ryw atomic db buf s) t
+      fails_dirty (view_of ryw db buf s) (next_of db buf) s || some_dirty ryw atomic db (step ryw atomic db buf s) t
   end.
 
 (* ---- observable dump: identities erased; a relationship is shown when both ends are alive ---- *)
 Definition alive (g : graph) (id : N) : bool := existsb (fun n => N.eqb (nid n) id) (gnodes g).
 Definition key_of (g : graph) (id : N) : Z :=
   match find (fun n => N.eqb (nid n) id) (gnodes g) with Some n => nkey n | None => 0 end.
-Definition dump_nodes (g : graph) : list (Z * list (N * Z)) := map (fun n => (nkey n, nprops n)) (gnodes g).
+Definition dump_nodes (g : graph) : list (Z * list N * list (N * Z)) := map (fun n => (nkey n, nlabels n, nprops n)) (gnodes g).
 Definition dump_edges (g : graph) : list (Z * Z) :=
   map (fun e => (key_of g (fst e), key_of g (snd e)))
       (filter (fun e => alive g (fst e) && alive g (snd e)) (gedges g)).
@@ -197,13 +272,16 @@ Fixpoint props_eqb (a b : list (N * Z)) : bool :=
   | (p, v) :: a', (q, w) :: b' => N.eqb p q && Z.eqb v w && props_eqb a' b'
   | _, _ => false
   end.
-Definition dnode_eqb (a b : Z * list (N * Z)) : bool := Z.eqb (fst a) (fst b) && props_eqb (snd a) (snd b).
+Fixpoint labels_eqb (a b : list N) : bool :=
+  match a, b with [], [] => true | x :: a', y :: b' => N.eqb x y && labels_eqb a' b' | _, _ => false end.
+Definition dnode_eqb (a b : Z * list N * list (N * Z)) : bool :=
+  Z.eqb (fst (fst a)) (fst (fst b)) && labels_eqb (snd (fst a)) (snd (fst b)) && props_eqb (snd a) (snd b).
 Definition dedge_eqb (a b : Z * Z) : bool := Z.eqb (fst a) (fst b) && Z.eqb (snd a) (snd b).
 Definition dump_eqb (g h : graph) : bool :=
   ms_eqb dnode_eqb (dump_nodes g) (dump_nodes h) && ms_eqb dedge_eqb (dump_edges g) (dump_edges h).
 
 (* initial databases of the correspondence: nodes (key, v) in creation order, edges by position *)
 Definition init_graph (ns : list (Z * option Z)) (es : list (N * N)) : graph :=
-  let nodes := map (fun '(i, (k, v)) => mkNode (N.of_nat i) k (match v with Some z => [(0%N, z)] | None => [] end))
+  let nodes := map (fun '(i, (k, v)) => mkNode (N.of_nat i) k [0%N] (match v with Some z => [(0%N, z)] | None => [] end))
                    (combine (seq 0 (length ns)) ns) in
   mkGraph (N.of_nat (length ns)) nodes es.
